@@ -9,6 +9,7 @@ package nsqadmin
 // process, which the parent reports with the case that was running.
 
 import (
+	"net/url"
 	"encoding/json"
 	"fmt"
 	"io"
@@ -858,7 +859,7 @@ func RunView(c MCluster) vx.Out {
 					}
 				}
 			}
-			code, m := get("/api/topics/" + t)
+			code, m := get("/api/topics/" + url.PathEscape(t))
 			if healthyHolders == 0 && failingHolders > 0 && !anyInconsistent {
 				if code != 502 {
 					bad("C18 no producer of the topic answers but the view is not 502", "/api/topics/%s answered %d", t, code)
@@ -908,7 +909,7 @@ func RunView(c MCluster) vx.Out {
 				bad("C18 failing upstream without a warning", "/api/topics/%s: %d producer(s) failing, message empty", t, failingHolders)
 			}
 			for name, w := range chanSum {
-				code, cm := get("/api/topics/" + t + "/" + name)
+				code, cm := get("/api/topics/" + url.PathEscape(t) + "/" + url.PathEscape(name))
 				if code != 200 {
 					bad("C18 view failed although an upstream answers", "/api/topics/%s/%s answered %d", t, name, code)
 					continue
